@@ -197,6 +197,7 @@ CHECKS["C19"] = {
     "nontrivial_floor": 300,
     "units": [
         {"name": "finish-after-release", "run": "^TestC19FinishAfterRelease$", "kind": "plain"},
+        {"name": "finish-after-buffers-released", "run": "^TestC19FinishAfterBuffersReleased$", "kind": "plain"},
         {"name": "exhaustive-nopool", "run": "^TestC19Exhaustive$", "kind": "plain", "shards": 4, "env": {"HERTZ_DISABLE_REQUEST_CONTEXT_POOL": "true"}},
         {"name": "exhaustive", "run": "^TestC19Exhaustive$", "kind": "plain", "shards": 8},
         {"name": "histories", "run": "^TestC19Histories$", "kind": "rapid", "checks": {"quick": 6000, "thorough": 120000}, "shards": {"quick": 8, "thorough": 16}},
